@@ -703,10 +703,12 @@ func stringJoinFunc(q, arg1 query) func(query, iterator) interface{} {
 			}
 		}
 
-		q = functionArgs(q)
-		test := predicate(q)
+		// A private copy per call: q is captured at build time and shared by
+		// every evaluation (and every goroutine) that uses this expression.
+		input := functionArgs(q)
+		test := predicate(input)
 		var parts []string
-		switch v := q.Evaluate(t).(type) {
+		switch v := input.Evaluate(t).(type) {
 		case string:
 			return v
 		case query:
